@@ -117,7 +117,8 @@ pub fn lin_fs_omission_forge<S: Lin + Attack>(sess: &Session<S>, order: &[usize]
         proof,
         claimed,
         desc: format!("Fiat-Shamir omission forgery: positions derived without absorbing v, then v += a message whose encoding vanishes on the {} queried positions ({n_rows} x {n_cols} matrix, {n_ext} codeword positions)", distinct.len()),
-        guard_log2: None,
+        // a verifier that does bind v draws its own t positions; the forgery survives if they all fall into the set
+        guard_log2: Some(t as f64 * ((distinct.len() as f64) / (n_ext as f64)).log2()),
     })
 }
 
@@ -190,7 +191,8 @@ where
     let proof = lincode::proofs_unmirror::<S>(&mp).ok()?;
     let claimed: Vec<Fr> = lqs.iter().map(|q| q.polynomial().evaluate(point)).collect();
     // chance that t uniformly drawn positions all fall into the window
-    let guard = if t_first >= n_ext { f64::NEG_INFINITY } else { t_first as f64 * ((m as f64) / (n_ext as f64)).log2() };
+    // (positions are drawn with replacement, so this holds whether or not t was capped at the codeword length)
+    let guard = t_first as f64 * ((m as f64) / (n_ext as f64)).log2();
     Some(Forged {
         proof,
         claimed,
